@@ -161,6 +161,23 @@ def parse_object_bytes(b):
     return gen, attrs
 
 
+def record_boundaries(b):
+    """offsets at which a truncated copy of the object file b still parses: after the generation number and after
+    every complete attribute record (0 - the empty file - included)"""
+    r = _R(b)
+    out = [0]
+    if r.eof():
+        return out
+    r.u64()
+    out.append(r.i)
+    while not r.eof():
+        t = r.u64()
+        k = r.u64()
+        _value(r, k)
+        out.append(r.i)
+    return out
+
+
 def _modes(root):
     out = []
     for dp, dns, fns in os.walk(root):
